@@ -22,7 +22,7 @@ THEOREMS = [
 RULE = ("generated modules: 2-7 Structure classes (annotation and assignment style; inheritance from 1-2 earlier "
         "classes, Partial/Omit/Pick/Extend/AllFieldsRequired bases, ImmutableStructure; _required/_optional/"
         "_additional_properties/_ignore_none/_immutable written or not, incl. chains where a base sets all flags and 1-3 subclasses restate nothing; `import datetime/decimal` with attribute-access field types; typing.Optional and AnyOf/OneOf/AllOf[X, None] fields, defaults, "
-        "Constants, nested collections, enum/reference fields, overriding of inherited fields, custom __init__), "
+        "Constants, nested collections, enum/reference fields, EVERY Field class exported by the working tree (enumerated from typedpy, typedpy.fields, typedpy.extfields; each once required, once in every non-required form: _required without it, _optional, _required=[], Partial/Omit/Pick/Extend/subclass derived, and mixed into the random stream), overriding of inherited fields, custom __init__), "
         "enums, plain classes, dataclasses, functions, module constants; additional_properties_default in "
         "{True, False}; every module through the real create_stub_for_file, ast.parse, parameter extraction; "
         "byte-identity under 1-2 other PYTHONHASHSEEDs in fresh interpreters; a case is non-trivial if a class has "
@@ -42,13 +42,14 @@ TRUSTED_EXTRA = [
 
 def cases(rng, tier):
     S.reset_work()
-    cs = [json.loads(json.dumps(c)) for c in S.CORPUS] + S.gen_cases(rng, tier, 450 if tier == "quick" else 6000)
+    cs = ([json.loads(json.dumps(c)) for c in S.CORPUS] + S.zoo_cases(rng, tier)
+          + S.gen_cases(rng, tier, 450 if tier == "quick" else 6000))
     S.prepare(cs)
     return cs
 
 
 def search_cases(rng, tier):
-    cs = S.gen_cases(rng, "thorough", 150)
+    cs = S.zoo_cases(rng, tier) + S.gen_cases(rng, "thorough", 150)
     S.prepare(cs)
     return cs
 
@@ -88,6 +89,9 @@ def judge(case, impl, model):
             fails.append(("generator-raises:import-name-clash",
                           f"create_stub_for_file raised {impl['gen_err']} (module does `import {imported[0]}` and a field's "
                           "python type has the module's name, e.g. datetime.datetime / DateTime)"))
+        elif case.get("zoo"):
+            fails.append((f"generator-raises:field-kind:{case['zoo']}",
+                          f"create_stub_for_file raised {impl['gen_err']} for a module with a {case['zoo_pos']} {case['zoo']} field"))
         else:
             fails.append(("generator-raises:other", "create_stub_for_file raised " + impl["gen_err"]))
         return _m(msgs), fails
